@@ -103,3 +103,7 @@ Fixpoint tiles (last c : Z) (l : list (list doc)) (last' c' : Z) : Prop :=
            ia = last /\ ib = l1 /\ sa = c /\ sb = c1) /\
         (last <= l1)%Z /\ (c1 - c = l1 - last)%Z /\ tiles l1 c1 rest last' c'
   end.
+
+(* the cadence of a fresh group (datum uids 100, 101, ... as the harness numbers them) *)
+Definition cadence_from (dets : list detector) (n : name) (ws : list (list Z)) : list op :=
+  cadence dets n false 0%Z 100 ws.
